@@ -29,11 +29,45 @@ func guardsAt(b *ssa.BasicBlock) []Guard {
 		if len(d.Preds) == 1 {
 			p := d.Preds[0]
 			if iff, ok := p.Instrs[len(p.Instrs)-1].(*ssa.If); ok && p.Succs[0] != p.Succs[1] {
-				gs = append(gs, Guard{Cond: iff.Cond, Pol: p.Succs[0] == d, If: iff})
+				gs = append(gs, expandGuard(Guard{Cond: iff.Cond, Pol: p.Succs[0] == d, If: iff}, 0)...)
 			}
 		}
 	}
 	return gs
+}
+
+// expandGuard: go/ssa materialises `a && b` / `a || b` used as a value (e.g. a tagless switch
+// case) as a phi of constants and the last operand. (a && b) == true gives a and b; (a || b) ==
+// false gives !a and !b.
+func expandGuard(g Guard, depth int) []Guard {
+	out := []Guard{g}
+	fg := flattenGuard(g)
+	ph, ok := fg.Cond.(*ssa.Phi)
+	if !ok || depth > 4 {
+		return out
+	}
+	isAnd := ph.Comment == "&&" && fg.Pol
+	isOr := ph.Comment == "||" && !fg.Pol
+	if !isAnd && !isOr {
+		return out
+	}
+	for i, e := range ph.Edges {
+		pred := ph.Block().Preds[i]
+		if cb, isC := constBool(e); isC {
+			// short-circuit edge: taken when an earlier operand already decided the result
+			if (isAnd && cb) || (isOr && !cb) {
+				continue
+			}
+			if iff, ok := lastInstr(pred).(*ssa.If); ok && pred.Succs[0] != pred.Succs[1] {
+				// the operand's value on the edge that does NOT go to the phi block
+				pol := pred.Succs[0] != ph.Block()
+				out = append(out, expandGuard(Guard{Cond: iff.Cond, Pol: pol, If: g.If}, depth+1)...)
+			}
+			continue
+		}
+		out = append(out, expandGuard(Guard{Cond: e, Pol: isAnd, If: g.If}, depth+1)...)
+	}
+	return out
 }
 
 // flattenCond expands a guard into atomic facts: !x -> x with flipped polarity. (&& and || are
